@@ -169,6 +169,42 @@ def r_add_scan(model, rep, tier):
     rep.ob("R-ADD-SCAN", "Images.add:scan-not-cut-short", not bad, site=cx.site(f.node),
            msg="" if not bad else "%s inside the collision scan (line %s)" % (bad[0].kind, bad[0].lineno))
     r_add_insertion(model, rep, after=refusal_ev.seq if refusal_ev is not None else None)
+    r_fresh_enforces(model, rep, tier)
+
+
+def r_fresh_enforces(model, rep, tier, rule_id="R-ADD-SCAN"):
+    """the version gate of the collision scan is *active on a freshly constructed Images()*: a new manifest is written in the
+    current format, so add() must enforce the current format's uniqueness rule while it is being built.  The initial header
+    version is folded from Images.__init__ (current VERSION if it calls header.set_current_version() unconditionally, else the
+    constant Header.__init__ assigns) and the gate is evaluated at it."""
+    from .schema import current_version
+    f = model.own_method("images.Images", "add")
+    cx = facts.fctx(model, f)
+    gates = []
+    for ev in cx.events:
+        if ev.kind == "raise" or (ev.kind == "bind" and ev.extra == "inlined-return"):
+            for g in ev.guards:
+                if facts.gate_term_value(g[0], (1, 1)) is not None and g not in gates \
+                        and any(e2.kind == "call" and e2.value[1] == ("global", "identify_image") and g in e2.guards for e2 in cx.events):
+                    gates.append(g)
+    init = model.own_method("images.Images", "__init__")
+    icx = facts.fctx(model, init)
+    sets = [ev for ev in icx.events if ev.kind == "call" and ev.value[1] == ("attr", ("attr", P(icx.selfname), "header"), "set_current_version")
+            and not ev.guards and not ev.loops]
+    if sets:
+        v0 = current_version(model)
+    else:
+        hcls = model.cls("common.Header")
+        try:
+            s0 = model.class_attr_const(hcls, "version")
+            v0 = tuple(int(x) for x in str(s0).split("."))
+        except Exception:
+            raise AnalysisError("initial header version of a fresh Images() cannot be folded")
+    ok = all((facts.gate_term_value(g[0], v0) == g[1]) for g in gates)
+    rep.ob(rule_id, "images.Images():uniqueness-enforced-on-a-fresh-manifest", ok, site=icx.site(init.node),
+           msg="" if ok else "a freshly constructed Images() has header version %s, for which add() skips the identity-collision check; the "
+                             "manifest is nevertheless written in the current format and a colliding pair makes it unloadable" % ".".join(map(str, v0)),
+           facts={"initial_version": ".".join(map(str, v0)), "gates": len(gates)})
 
 
 def r_add_insertion(model, rep, rule_id="R-ADD-SCAN", after=None):
